@@ -1063,10 +1063,14 @@ impl<'a> GeneratorState<'a> {
             if keep_acc {
                 self.sasm(PHA)?;
             }
+            let postponed = !self.deferred_plusplus.is_empty() || self.saved_y;
             self.acc_in_use = false;
             self.purge_deferred_plusplus_and_savey()?;
             if keep_acc {
                 self.sasm(PLA)?;
+            } else if postponed && f.return_type.is_some() {
+                // The caller takes the flags for those of the value returned (a = f(); if (a) ...)
+                self.asm(CMP, &ExprType::Immediate(0), pos, false)?;
             }
             if inline {
                 self.asm(JMP, &ExprType::Label(".endof".into()), 0, false)?;
